@@ -68,6 +68,8 @@ func init() {
 		ruleMemberLoops(inPkgs("geojson."), 3, 0),
 		ruleLoopShapes(inPkgs("geojson."), 3, 2),
 		ruleContainerReset(inPkgs("geojson."), 2),
+		ruleMakeThenAppend(inPkgs("geojson."), 0),
+		ruleNoWriteOpt("geojson encoders", geojsonEncoders, 6, 4, true),
 		ruleShapeFaults(shapeConfig{label: "geojson constructors", keep: inPkgs("geojson."), floor: 2}),
 	)
 
@@ -77,6 +79,7 @@ func init() {
 		ruleRunOnce(inMVT, 30),
 		ruleLoopAlias(inMVT, 20),
 		ruleLoopShapes(inMVT, 0, 5),
+		rulePluralDelegates(inMVT, 4),
 		ruleProtoTables,
 		ruleMemberLoops(inMVT, 18, 0),
 	)
@@ -148,6 +151,7 @@ func init() {
 		"Structural necessary conditions of 'spherical measures sum over parts': member loops of polygon/multi-polygon/collection area and the shared length loops cover every member/segment. Identities on the sphere are NOT decided (thin claim).",
 		ruleMemberLoops(inPkgs("geo.", "internal/length."), 6, 2),
 		ruleShapeFaults(shapeConfig{label: "geo measures", keep: inPkgs("geo.", "internal/length."), floor: 5}),
+		ruleBoundAsPolygon,
 		ruleRunOnce(inPkgs("geo.", "internal/length."), 8),
 	)
 
@@ -172,6 +176,7 @@ func init() {
 		"Structural necessary conditions of 'a projection transforms every vertex in place': every projection helper stores f(x[i]) back to x[i] for the loop's own i (so kind, nesting and order are preserved), the bound helper projects exactly its two corners, every member loop (incl. the layer/feature loops of the MVT projection) is complete, and no certain fault exists for any kind x shape. All numeric inverse/rounding claims are NOT decided.",
 		ruleIndexPreserving("project.", 6),
 		ruleTileRounding,
+		rulePluralDelegates(inPkgs("encoding/mvt."), 4),
 		ruleDiscardedResult(func(k string) bool { return inPkgs("project.")(k) || (inPkgs("encoding/mvt.")(k) && strings.Contains(k, "Project")) }),
 		ruleMemberLoops(func(k string) bool {
 			return inPkgs("project.")(k) || (inPkgs("encoding/mvt.")(k) && strings.Contains(k, "Project"))
@@ -202,8 +207,10 @@ func init() {
 		ruleShapeFaults(shapeConfig{label: "generic entries", keep: notGenerated, onlyGeneric: true, floor: 41}),
 		ruleNoWrite("observers", observerEntries, 25, 30),
 		ruleDiscardedResult(notGenerated),
+		ruleBoundAsPolygon,
 		ruleLoopShapes(notGenerated, 18, 25),
 		ruleCompactionIndex(notGenerated, 6),
+		ruleMakeThenAppend(notGenerated, 8),
 		ruleLastIterationWins(notGenerated, 100),
 	)
 }
@@ -241,6 +248,13 @@ func cloneFamily(c *Ctx) []effectEntry {
 func resampleParams(p *Program, fn *ssa.Function, par *ssa.Parameter) []argChoice {
 	if par.Name() == "totalPoints" {
 		return intChoices("totalPoints", -1, 0, 1, 2, 3)
+	}
+	if par.Name() == "dist" {
+		return []argChoice{
+			{"dist=-1", func(*Interp, *State) AV { return FloatV{Known: true, V: -1} }},
+			{"dist=0", func(*Interp, *State) AV { return FloatV{Known: true, V: 0} }},
+			{"dist=free", func(it *Interp, s *State) AV { return it.freeFloat() }},
+		}
 	}
 	return nil
 }
@@ -556,4 +570,16 @@ var wkbUnitDecoders = []string{
 	"encoding/internal/wkbcommon.unmarshalPoints", "encoding/internal/wkbcommon.unmarshalMultiPoint", "encoding/internal/wkbcommon.unmarshalLineString",
 	"encoding/internal/wkbcommon.unmarshalMultiLineString", "encoding/internal/wkbcommon.unmarshalPolygon", "encoding/internal/wkbcommon.unmarshalMultiPolygon",
 	
+}
+
+// geojsonEncoders: Marshal methods read the value they encode.
+func geojsonEncoders(c *Ctx) []effectEntry {
+	var out []effectEntry
+	for _, fn := range c.P.FuncsIn(orbPath + "/geojson") {
+		if fn.Parent() != nil || fn.Signature.Recv() == nil || !strings.HasPrefix(fn.Name(), "Marshal") {
+			continue
+		}
+		out = append(out, effectEntry{key: ShortKey(FuncKey(fn)), roles: map[int]paramRole{0: roleInput}})
+	}
+	return out
 }
